@@ -514,6 +514,12 @@ def run(analysis: Analysis, tier: str) -> RuleResult:
     ]
     totality(analysis, res)
     conformance(analysis, res)
+    # "accepted exactly when ...": the decoder must not reject lines of its own accord (shared with C02-R1)
+    from .c02 import decode_provenance
+
+    for construct, ok, where_, detail in decode_provenance(analysis, ";"):
+        if "rejected only" in construct or "int() only" in construct or "ValueError only" in construct:
+            res.add("C03-R7", construct, ok, where_, detail)
     validator_bodies(analysis, res)
     header_rules(analysis, res)
     validators_total(analysis, res)
